@@ -5,6 +5,7 @@ let () =
     | "codec" -> M_codec.handle
     | "buffer" -> M_buffer.handle
     | "cli" -> M_cli.handle
+    | "prep" -> M_prep.handle
     | _ -> prerr_endline ("unknown component " ^ comp); exit 2 in
   let out = Buffer.create 65536 in
   (try while true do
